@@ -13,7 +13,7 @@
                      height are final. *)
 From Coq Require Import Sorted.
 From BV Require Import Base.Prelude Model.Block Model.ForkDB Model.Forkable Model.ForkableLookups
-  Model.Burst Model.Hub Spec.Consumer Spec.Universe Check.Fk_Check Check.Burst_Check Spec.C09_Spec Spec.C05_Spec
+  Model.Burst Model.Hub Spec.Consumer Spec.Universe Check.Fk_Check Check.Burst_Check Spec.C09_Spec Spec.C05_Spec Spec.C05_Through_Spec
   Spec.C01_Spec Spec.C01_Moving_Spec.
 Local Open Scope N_scope.
 
@@ -123,3 +123,29 @@ Definition C05_serves_history : Prop :=
     last_sent s = Some hd -> complete_segment (db s) (bref hd) = Some (sg, true) ->
     block_in (ri (elib ek)) sg = true ->
     exists evs, blocks_from_cursor s (ev_cursor ek) = BOk evs.
+
+(* ------------------------------------------------------------------ goal: final-only consumers *)
+
+(* The cursor of an Irreversible event k (a consumer that only follows final blocks and crashed right after the
+   announcement of block f = eblk ek), at every later instant at which f is still on the retained canonical chain:
+   the hub serves it, and the irreversible events of the burst (Irreversible and New+Irreversible steps) are exactly
+   the final blocks the never-disconnected consumer holds after f: finals_of cm = P ++ F0 with P ending with f
+   (P = [] only for the announcement of a discovered LIB block that was never delivered as New: then every final
+   block of the consumer comes after it). *)
+Definition C05_final_history : Prop :=
+  forall first kept (h : list block) (k m : nat) ek cm hd sg,
+    wf_b h = true -> lib_ok_b LNone h = true ->
+    let cfg := hub_config first kept in
+    let tr := fk_run cfg (fs_init LNone) h in
+    let upto n := concat (map fst (firstn n tr)) in
+    let s := state_after cfg (fs_init LNone) h m in
+    nth_error (upto (length tr)) k = Some ek -> estep ek = SIrr ->
+    (k < length (upto m))%nat ->
+    cons_fold cons0 (upto m) = Some cm ->
+    last_sent s = Some hd -> complete_segment (db s) (bref hd) = Some (sg, true) ->
+    block_in (ri (ecblk ek)) sg = true ->
+    exists evs P F0,
+      blocks_from_cursor s (ev_cursor ek) = BOk evs /\
+      ecblk ek = bref (eblk ek) /\ elib ek = bref (eblk ek) /\
+      finals_of cm = P ++ F0 /\ (P = [] \/ exists P', P = P' ++ [eblk ek]) /\
+      map eblk (irr_events evs) = F0.
